@@ -21,7 +21,9 @@ import sys
 import threading
 import zlib
 
-SRC_PREFIX = os.path.realpath("/repo/src/pendulum") + os.sep
+# VERIF_REPO: root of the repository under test (default /repo); only the self-tests override it
+REPO_ROOT = os.path.realpath(os.environ.get("VERIF_REPO", "/repo"))
+SRC_PREFIX = os.path.join(REPO_ROOT, "src", "pendulum") + os.sep
 _LOCALE_DIR = SRC_PREFIX + "locales" + os.sep
 _LOCALE_CORE = _LOCALE_DIR + "locale.py"
 
